@@ -60,8 +60,10 @@ def check_case(case, ctx):
         path = os.path.join(d, name + '.py')
         src = '\n'.join(lines) + '\n'
         src = src.replace(modules.HELPER, helper)
-        with open(path, 'w') as f:
-            f.write(src)
+        # how the file is saved is not the module's business: byte order mark (utf-8-sig), CRLF line ends
+        data = src.replace('\n', '\r\n') if case.get('crlf') else src
+        with open(path, 'wb') as f:
+            f.write((b'\xef\xbb\xbf' if case.get('bom') else b'') + data.encode('utf-8'))
         with open(os.path.join(d, helper + '.py'), 'w') as f:
             f.write(modules.HELPER_SOURCE)
         try:
@@ -105,7 +107,11 @@ def check_case(case, ctx):
 @composite
 def module_strategy(D, max_items):
     m = modules.build_module(D, importable=True, fail_kinds=(None,), max_items=max_items, helper=True)
-    return modules.case_of(m)
+    case = modules.case_of(m)
+    case['bom'] = D.chance(1, 6)
+    case['crlf'] = D.chance(1, 6)
+    case['features'] = sorted(set(case['features']) | ({'utf8_bom'} if case['bom'] else set()) | ({'crlf'} if case['crlf'] else set()))
+    return case
 
 
 def _check(case, ctx):
